@@ -340,14 +340,10 @@ class C03(Check):
         return out
 
     def raw_of(self, m):
-        """13 raw numbers (wildcard word + `_field` values) of a real ofp_match"""
-        out = [m.wildcards]
-        for name in F[1:]:
-            v = getattr(m, "_" + name)
-            if name in ("dl_src", "dl_dst"): out.append(int.from_bytes(v.toRaw(), "big") if hasattr(v, "toRaw") else int.from_bytes(bytes(v), "big"))
-            elif name in ("nw_src", "nw_dst"): out.append(self.IPAddr(v).toUnsigned() if not isinstance(v, int) or v else 0)
-            else: out.append(int(v))
-        return out
+        """13 numbers describing a real ofp_match through its public attributes only: the wildcard word and the attribute views
+        (a wildcarded field reads None -> 0; no test looks at the value of a wildcarded field)"""
+        v = self.views_of(m)
+        return [v[0]] + [0 if x is None else x for x in v[1:]]
 
     def real_match(self, spec):
         """spec: {'w': hex40} (unpack flow_mod=True) | {'loc': rec, 'force_w': bool} (built locally by attribute assignment)"""
@@ -369,6 +365,28 @@ class C03(Check):
             m.wildcards = r[W]                             # plain attribute store: no normalisation (out-of-range counters stay)
             m._nw_src = self.IPAddr(r[NW_SRC].to_bytes(4, "big")); m._nw_dst = self.IPAddr(r[NW_DST].to_bytes(4, "big"))
         return m
+
+    # -- the real API is driven in all its calling forms (positional / keyword, bytes / bytearray / offset), chosen from the case's content
+    def _cv(self, case):
+        import zlib
+        return zlib.crc32(common.canon(case).encode())
+    def _int(self, n):
+        return int(str(n))                      # a value built at run time, never the object the table already holds
+    def _unpack(self, hexw, form):
+        m = self.of.ofp_match(); b = bytes.fromhex(hexw)
+        if form % 3 == 0: m.unpack(b, 0, flow_mod=True)
+        elif form % 3 == 1: m.unpack(raw=bytearray(b), offset=0, flow_mod=True)
+        else: m.unpack(b"\xff\xff\xff" + b, 3, True)
+        return m
+    def _entry(self, prio, m, idle, hard, now, form):
+        prio = self._int(prio)
+        if form % 2: return self.TableEntry(priority=prio, match=m, actions=[], idle_timeout=idle, hard_timeout=hard, now=now)
+        return self.TableEntry(prio, 0, idle, hard, 0, m, [], None, now)
+    def _lookup(self, ft, e, port, form):
+        return ft.entry_for_packet(e, port) if form % 2 else ft.entry_for_packet(packet=e, in_port=port)
+    def _poke(self, m):
+        """what applications do with match objects in between: hash (which locks the object), compare, print"""
+        hash(m); m == m; str(m); m.show()
 
     def impl(self, case):
         k = case["kind"]
@@ -393,30 +411,47 @@ class C03(Check):
             res = []
             for pr in case["pairs"]:
                 a, b = self.real_match(pr["a"]), self.real_match(pr["b"])
-                try: r = 1 if a.matches_with_wildcards(b) else 0
-                except Exception as ex: r = "exc:" + type(ex).__name__
-                res.append([r, 1 if a == b else 0])
+                try:
+                    r = 1 if a.matches_with_wildcards(b) else 0
+                    lenient = 1 if a.matches_with_wildcards(b, False) else 0          # the lenient test in between must not change the strict one
+                    r2 = 1 if a.matches_with_wildcards(other=b, consider_other_wildcards=True) else 0
+                except Exception as ex: r = lenient = r2 = "exc:" + type(ex).__name__
+                res.append([r, 1 if a == b else 0, lenient, r2])
             return {"res": res}
         if k == "table":
+            cv = self._cv(case)
             sw = self.SoftwareSwitch(dpid=1, name="c03", ports=4) if case.get("via_switch") else None
             ft = sw.table if sw else self.FlowTable()
-            ents = []
+            ents, idx = [], {}
             for i, (prio, w) in enumerate(case["entries"]):
-                m = self.of.ofp_match(); m.unpack(bytes.fromhex(w), 0, flow_mod=True)
-                te = self.TableEntry(priority=prio, match=m, actions=[], now=0)
-                te._c03 = i
+                m = self._unpack(w, cv + i)
+                if (cv + i) % 3 == 0: self._poke(m)
+                te = self._entry(prio, m, 0, 0, 0, cv + i)
+                idx[id(te)] = i
                 ents.append(te)
-                ft.add_entry(te)
-            order = [te._c03 for te in ft._table]
-            eff = [te.effective_priority for te in ft._table]
+                ft.add_entry(te) if (cv + i) % 2 else ft.add_entry(entry=te)
+            order = [idx[id(te)] for te in ft.entries]
+            eff = [te.effective_priority for te in ft.entries]
             exact = [1 if te.match.is_exact else 0 for te in ents]
-            lookups, rx, phs, wfs = [], [], [], []
-            for fr in case["frames"]:
-                e = self.parse(fr["frame"])
+            twin = None
+            if case.get("twin"):                # a second table in the same process, priorities in reverse: the two must not share anything
+                ftb, idxb = self.FlowTable(), {}
+                prios = [p for p, _ in case["entries"]][::-1]
+                for i, (prio, (_, w)) in enumerate(zip(prios, case["entries"])):
+                    te = self._entry(prio, self._unpack(w, cv), 0, 0, 0, cv); idxb[id(te)] = i; ftb.add_entry(te)
+                twin = []
+            lookups, rx, phs, wfs, pk = [], [], [], [], {}
+            for n, fr in enumerate(case["frames"]):
+                if fr["frame"] not in pk: pk[fr["frame"]] = self.parse(fr["frame"])
+                e = pk[fr["frame"]]             # the same packet object again when a frame is looked up again
                 ph, wf = self.phdr_of(e)
                 phs.append(ph); wfs.append(wf)
-                te = ft.entry_for_packet(e, fr["port"])
-                lookups.append(None if te is None else te._c03)
+                if twin is not None:
+                    tb = ftb.entry_for_packet(e, fr["port"]); twin.append(None if tb is None else idxb[id(tb)])
+                te = self._lookup(ft, e, fr["port"], cv + n)
+                lookups.append(None if te is None else idx[id(te)])
+                if (cv + n) % 4 == 0:
+                    for x in ents[:3]: self._poke(x.match)
                 if sw:
                     before = [x.packet_count for x in ents]
                     sw.rx_packet(e, fr["port"], packet_data=bytes.fromhex(fr["frame"]))
@@ -424,23 +459,24 @@ class C03(Check):
                     rx.append(hit[0] if len(hit) == 1 else (None if not hit else "many"))
             codematch = []          # which entries the code itself accepts, per frame (used only to classify a lookup failure)
             for fr in case["frames"]:
-                e = self.parse(fr["frame"])
-                pm = self.of.ofp_match.from_packet(e, fr["port"], spec_frags=True)
+                pm = self.of.ofp_match.from_packet(self.parse(fr["frame"]), fr["port"], spec_frags=True)
                 codematch.append([1 if te.match.matches_with_wildcards(pm, consider_other_wildcards=False) else 0 for te in ents])
-            fresh = None
-            if case.get("seq"):                 # the same lookups, each on its own fresh copy of the table
-                fresh = []
-                for fr in case["frames"]:
-                    ft2 = self.FlowTable()
-                    copies = []
-                    for i, (prio, w) in enumerate(case["entries"]):
+            fresh = twin_fresh = None
+            if case.get("seq"):                 # the same lookups, each on its own fresh copy of the table and a fresh packet object
+                def alone(entries, fr):
+                    ft2, ix = self.FlowTable(), {}
+                    for i, (prio, w) in enumerate(entries):
                         m = self.of.ofp_match(); m.unpack(bytes.fromhex(w), 0, flow_mod=True)
-                        te = self.TableEntry(priority=prio, match=m, actions=[], now=0); te._c03 = i
+                        te = self.TableEntry(priority=prio, match=m, actions=[], now=0); ix[id(te)] = i
                         ft2.add_entry(te)
                     te = ft2.entry_for_packet(self.parse(fr["frame"]), fr["port"])
-                    fresh.append(None if te is None else te._c03)
+                    return None if te is None else ix[id(te)]
+                fresh = [alone(case["entries"], fr) for fr in case["frames"]]
+                if twin is not None:
+                    tw = [[p, w] for p, (_, w) in zip([p for p, _ in case["entries"]][::-1], case["entries"])]
+                    twin_fresh = [alone(tw, fr) for fr in case["frames"]]
             return {"order": order, "eff": eff, "exact": exact, "lookups": lookups, "rx": rx if sw else None, "phdrs": phs, "wfs": wfs, "codematch": codematch,
-                    "fresh": fresh}
+                    "fresh": fresh, "twin": twin, "twin_fresh": twin_fresh}
         if k == "selfflow":
             e = self.parse(case["frame"])
             ph, wf = self.phdr_of(e)
@@ -453,35 +489,39 @@ class C03(Check):
             return {"phdr": ph, "wf": wf, "m": self.views_of(m), "wire": unpack_rec(wire), "m2w": m2.wildcards,
                     "hit": 1 if m2.matches_with_wildcards(pm, consider_other_wildcards=False) else 0, "exact": 1 if m2.is_exact else 0}
         if k == "tableops":
+            cv = self._cv(case)
             ft = self.FlowTable()
-            ents, trace, looks = {}, [], []
-            ids = lambda: [te._c03 for te in ft._table]
-            for op in case["ops"]:
+            ents, idx, trace, looks, pk = {}, {}, [], [], {}
+            ids = lambda: [idx[id(te)] for te in ft.entries]
+            for n, op in enumerate(case["ops"]):
                 raised = 0
                 try:
                     if op[0] == "add":
                         _, i, prio, w, idle, hard, now = op
-                        m = self.of.ofp_match(); m.unpack(bytes.fromhex(w), 0, flow_mod=True)
-                        te = self.TableEntry(priority=prio, match=m, actions=[], idle_timeout=idle, hard_timeout=hard, now=now / 1000.0)
-                        te._c03 = i
+                        m = ents[int(w[1:])].match if w.startswith("@") else self._unpack(w, cv + n)      # "@j": the very match object of entry j again
+                        if (cv + n) % 5 == 0: self._poke(m)
+                        te = self._entry(prio, m, idle, hard, now / 1000.0, cv + n)
+                        idx[id(te)] = i
                         ents[i] = te
                         ft.add_entry(te)
                     elif op[0] == "remove":
-                        ft.remove_entry(ents[op[1]])
+                        ft.remove_entry(ents[op[1]]) if (cv + n) % 2 else ft.remove_entry(entry=ents[op[1]])
                     elif op[0] == "rm_match":
-                        m = self.of.ofp_match(); m.unpack(bytes.fromhex(op[1]), 0, flow_mod=True)
-                        ft.remove_matching_entries(m, priority=op[2], strict=op[3])
+                        m = self._unpack(op[1], cv + n)
+                        if (cv + n) % 2: ft.remove_matching_entries(m, self._int(op[2]), bool(op[3]))
+                        else: ft.remove_matching_entries(match=m, priority=self._int(op[2]), strict=bool(op[3]))
                     elif op[0] == "expire":
-                        ft.remove_expired_entries(now=op[1] / 1000.0)
+                        ft.remove_expired_entries(op[1] / 1000.0) if (cv + n) % 2 else ft.remove_expired_entries(now=op[1] / 1000.0)
                     elif op[0] == "lookup":
-                        e = self.parse(op[1])
+                        if op[1] not in pk: pk[op[1]] = self.parse(op[1])
+                        e = pk[op[1]]
                         ph, wf = self.phdr_of(e)
-                        te = ft.entry_for_packet(e, op[2])
-                        pm = self.of.ofp_match.from_packet(e, op[2], spec_frags=True)
+                        te = self._lookup(ft, e, op[2], cv + n)
+                        pm = self.of.ofp_match.from_packet(self.parse(op[1]), op[2], spec_frags=True)
                         present = ids()
                         looks.append({"phdr": ph, "wf": wf, "present": present,
                                       "codematch": {str(i): 1 if ents[i].match.matches_with_wildcards(pm, consider_other_wildcards=False) else 0 for i in present}})
-                        trace.append(["l", None if te is None else te._c03])
+                        trace.append(["l", None if te is None else idx[id(te)]])
                         continue
                     else: raise ValueError(op[0])
                 except (ValueError, IndexError) as ex:
@@ -527,7 +567,10 @@ class C03(Check):
         if k == "tableops":
             ops = []
             for op in case["ops"]:
-                if op[0] == "add": ops.append(["add", op[1], op[2], unpack_rec(bytes.fromhex(op[3])), op[4], op[5], op[6]])
+                if op[0] == "add":
+                    w = op[3]
+                    while w.startswith("@"): w = [o for o in case["ops"] if o[0] == "add" and o[1] == int(w[1:])][0][3]
+                    ops.append(["add", op[1], op[2], unpack_rec(bytes.fromhex(w)), op[4], op[5], op[6]])
                 elif op[0] == "rm_match": ops.append(["rm_match", unpack_rec(bytes.fromhex(op[1])), op[2], bool(op[3])])
                 elif op[0] == "lookup": ops.append(["lookup", self.phdr_of(self.parse(op[1]))[0], op[2]])
                 else: ops.append(list(op))
@@ -564,7 +607,7 @@ class C03(Check):
             return {"pm": resp["pm"], "res": [[a, b] for a, b, _ in resp["res"]], "hdr": resp["hdr"],
                     "spec": [c for _, _, c in resp["res"]] if self._wire(case) else None}
         if k == "subsume":
-            return {"res": [[a, c] for a, _, c in resp["res"]]}
+            return {"res": [[a, c, d, a] for a, _, c, d in resp["res"]]}
         if k == "table":
             v = {kk: resp[kk] for kk in ("order", "eff", "exact", "lookups", "spec", "rank")}
             if case.get("via_switch"): v["rx"] = resp["lookups"]
